@@ -4,6 +4,8 @@ import Mieru.Proofs.C09LE
 import Mieru.Proofs.C08
 import Mieru.Model.SpecCrypto
 import Mieru.Gen.Consts
+import Mieru.Gen.Wire
+import Mieru.Proofs.C09Real
 /-!
 # C09 — what goes on the wire is exactly the documented protocol
 
@@ -265,6 +267,78 @@ theorem spec_udp_reply_roundtrip (A : AeadFns) (hA : AeadLaws A) (kc nonce : Byt
       ∀ d', udpSeal A k nonce' s' lePad' = some d' → udpOpen A kc d' = .ok (s'.md, s'.payload) :=
   ⟨kc, Srv.udpOpenCands_finds A hA leLaw kc nonce hn s hw lePad d hs cands hin hc,
    fun d' hd' => udp_roundtrip A hA leLaw kc nonce' hn' s' hw' lePad' d' hd'⟩
+
+/-! ## Round 3: the layouts as the CODE lays them out, any chunking, the executable AEAD -/
+
+/-- field names of metadata.go → field names of the document's tables -/
+def goField : String → String
+  | "statusCode" => "status" | "lowEntropyMode" => "mode" | "lowEntropyMask" => "mask"
+  | "extractedPayloadLen" => "extractedLen" | "lowEntropyMaskRotation" => "rotation" | s => s
+
+/-- a regenerated (offset, width, field, guard, byte order) table as a document table; `le` keeps
+    the rows guarded by `if isLowEntropyProtocol(…)` -/
+def asSpec (rows : List (Nat × Nat × String × String × String)) (le : Bool) : List (String × Nat × Nat) :=
+  (rows.filter (fun r => le || r.2.2.2.1 == "")).map fun r => (goField r.2.2.1, r.1, r.2.1)
+
+/-- **The three layouts of the code are the three layouts of the document.**  The tables are
+    REGENERATED on every run from the bodies of `sessionStruct.Marshal/Unmarshal` and
+    `dataAckStruct.Marshal/Unmarshal` (every `b[i] = …`, `binary.BigEndian.PutUintNN(b[i:], …)`,
+    `b[i]`, `binary.BigEndian.UintNN(b[i:])`): each field is stored at, and read from, exactly the
+    (offset, width) of the document's table, every multi-byte field big endian, the low-entropy
+    extension under the low-entropy guard.  With `spec_offsets` (the reference encoder places every
+    field there, for all values) a moved, resized, renamed or byte-swapped field on EITHER side of
+    the code breaks this theorem at build time. -/
+theorem spec_offsets_match_gen :
+    asSpec Mieru.Gen.Wire.sessionMarshal false = sessionOffsets ∧
+    asSpec Mieru.Gen.Wire.sessionUnmarshal false = sessionOffsets ∧
+    asSpec Mieru.Gen.Wire.dataAckMarshal false = dataOffsets ∧
+    asSpec Mieru.Gen.Wire.dataAckUnmarshal false = dataOffsets ∧
+    asSpec Mieru.Gen.Wire.dataAckMarshal true = leOffsets ∧
+    asSpec Mieru.Gen.Wire.dataAckUnmarshal true = leOffsets ∧
+    (∀ r ∈ Mieru.Gen.Wire.sessionMarshal ++ Mieru.Gen.Wire.sessionUnmarshal ++ Mieru.Gen.Wire.dataAckMarshal ++
+        Mieru.Gen.Wire.dataAckUnmarshal, (r.2.1 = 1 ∧ r.2.2.2.2 = "byte") ∨ r.2.2.2.2 = "BigEndian") := by decide
+
+/-- **Chunking independence of the reference stream receiver**: however the network cuts the
+    byte stream, for every receiver state, with no hypothesis on the AEAD or the bytes. -/
+theorem spec_feed_chunking_independent (A : AeadFns) (r : Rx) (a b : Bytes) (cands : List Bytes) (chunks : List Bytes) :
+    feed A (feed A r a) b = feed A r (a ++ b) ∧
+    chunks.foldl (feed A) (Rx.new cands) = feed A (Rx.new cands) chunks.flatten :=
+  ⟨feed_feed A r a b, foldl_feed_new A cands chunks⟩
+
+/-- **The framing theorems for the executable AEAD's shape**: an AEAD that is lawful on 32-byte keys
+    and 24-byte nonces (and may refuse every other size, as `realAead` does).  UDP datagram round
+    trip; whole TCP direction under any chunking, with the key-commitment assumption restricted to
+    the ONE ciphertext the sender produces first.  No low-entropy hypothesis (`spec_le_law`). -/
+theorem spec_framing_32_24 (A : AeadFns) (hA : AeadLaws32 A) :
+    (∀ (key nonce : Bytes), key.length = 32 → nonce.length = 24 → ∀ (s : Segment), s.wf → ∀ (lePad : Bool) (d : Bytes),
+      udpSeal A key nonce s lePad = some d → udpOpen A key d = .ok (s.md, s.payload)) ∧
+    (∀ (segs : List (Segment × Bool)), (∀ x ∈ segs, x.1.wf) → ∀ (t : Tx), t.key.length = 32 → t.nonce.length = 24 →
+      ∀ (cands : List Bytes), (∀ k ∈ cands, k.length = 32) → InSyncFor A t (Rx.new cands) (firstMeta segs) →
+      ∀ (bytes : Bytes), sealAll A t segs = some bytes → ∀ (chunks : List Bytes), chunks.flatten = bytes →
+      (chunks.foldl (feed A) (Rx.new cands)).out = segs.map (fun x => (x.1.md, x.1.payload)) ∧
+      (chunks.foldl (feed A) (Rx.new cands)).dead = none ∧ (chunks.foldl (feed A) (Rx.new cands)).buf = []) :=
+  ⟨fun key nonce hk hn s hw lePad d hs => udp_roundtrip32 A hA key nonce hk hn s hw lePad d hs,
+   fun segs hw t hk hn cands hc hsync bytes hs chunks hch =>
+     tcp_stream_roundtrip32 A hA segs hw t hk hn cands hc hsync bytes hs chunks hch⟩
+
+/-- the corollary for the AEAD the driver runs, under the single residual hypothesis "XChaCha20-Poly1305
+    opens what it sealed, 16 bytes longer, on 32-byte keys and 24-byte nonces" -/
+theorem spec_framing_real (hX : AeadLaws32 realAead) :
+    (∀ (key nonce : Bytes), key.length = 32 → nonce.length = 24 → ∀ (s : Segment), s.wf → ∀ (lePad : Bool) (d : Bytes),
+      udpSeal realAead key nonce s lePad = some d → udpOpen realAead key d = .ok (s.md, s.payload)) ∧
+    (∀ (segs : List (Segment × Bool)), (∀ x ∈ segs, x.1.wf) → ∀ (t : Tx), t.key.length = 32 → t.nonce.length = 24 →
+      ∀ (cands : List Bytes), (∀ k ∈ cands, k.length = 32) → InSyncFor realAead t (Rx.new cands) (firstMeta segs) →
+      ∀ (bytes : Bytes), sealAll realAead t segs = some bytes → ∀ (chunks : List Bytes), chunks.flatten = bytes →
+      (chunks.foldl (feed realAead) (Rx.new cands)).out = segs.map (fun x => (x.1.md, x.1.payload)) ∧
+      (chunks.foldl (feed realAead) (Rx.new cands)).dead = none ∧
+      (chunks.foldl (feed realAead) (Rx.new cands)).buf = []) :=
+  spec_framing_32_24 realAead hX
+
+-- `AeadLaws32` is inhabited (the toy AEAD), and `realAead` could not satisfy the unrestricted laws:
+example : AeadLaws32 toyAead := toy_laws32
+example : ¬ AeadLaws realAead := fun h => by
+  have := h.open_seal [] [] []
+  simp [realAead] at this
 
 /-! ### Non-vacuity of the server-direction theorems -/
 
